@@ -199,7 +199,7 @@ let stopped_other_name iters dl i ty inst =
           | RPtr a -> a = inst && d.dl_rr.r_name = ty2 && d.dl_rr.r_type = ty_ptr | _ -> false) dl
       | _ -> false) it.i_calls) (take (i + 1) iters)
 
-let refine ifs iters (hidden : bool Lazy.t) (refreshc : bool Lazy.t) (f : fail) (tag : string) : string =
+let refine ifs iters (hidden : bool Lazy.t) (refreshc : bool Lazy.t) (withdrawn : bool Lazy.t) (f : fail) (tag : string) : string =
   let dl = all_dlvs ifs iters in
   match f with
   | F04_labels (_, ls) ->
@@ -219,6 +219,9 @@ let refine ifs iters (hidden : bool Lazy.t) (refreshc : bool Lazy.t) (f : fail) 
     else if Lazy.force hidden then "dead:ptr-last-second" else tag
   (* refuted inside the class (C05_no_resolved_again_refuted_in_srv_targets) *)
   | F05_again (_, _, inst) -> if srv_targets dl inst then "again:srv-targets" else tag
+  (* the class found by C04_followups_as_specified_partial: ServiceFound for a PTR whose goodbye is in the same message *)
+  | F04_followup (_, _, false) | F04_wake (_, _, false) ->
+    if Lazy.force withdrawn then "followup:withdrawn-same-message" else tag
   | F04_order _ -> if known_browse_expiring ifs iters then "order:browse-expiring-ptr" else tag
   | _ -> tag
 
@@ -228,7 +231,8 @@ let verdict ifs iters (fs : fail list) : string =
   | _ ->
     let hidden = lazy (known_removal_hidden ifs iters) in
     let refreshc = lazy (known_refresh_completes ifs iters) in
-    let tagged = List.map (fun f -> let (t, d) = string_of_fail f in (refine ifs iters hidden refreshc f t, d)) fs in
+    let withdrawn = lazy (known_found_withdrawn ifs iters) in
+    let tagged = List.map (fun f -> let (t, d) = string_of_fail f in (refine ifs iters hidden refreshc withdrawn f t, d)) fs in
     let tags = List.sort_uniq compare (List.map fst tagged) in
     Printf.sprintf "FAIL[%s] %s (%d failures)" (String.concat "," tags) (snd (List.hd tagged)) (List.length fs)
 
